@@ -191,6 +191,7 @@ def run(ctx):
     except ImportError:
         pass
     n = e7.check_fn(ctx, crate, "nested::Layer::from_ring", "exact-integer-sqrt")
+    e7.isqrt_table(ctx, crate)
     ctx.floor("sqrt-chains-in-from_ring", n, 1)
     boundaries(ctx, crate)
     if ctx.tier == "thorough":
